@@ -19,7 +19,7 @@ RULE = ('cases: every grid-world shape with extents 0..N per axis (DiscreteWorld
         'is the coordinate; get_cell(x,y,z) is that very row (row label = id, pos and the distinguishing cell-component values equal '
         'to the coordinate\'s); outside coordinates raise IndexError. Non-trivial shape: >=2 cells; distinct by (world class, extents).')
 ASSUMPTIONS = ['exhaustive only for extents <= N', 'cell ids are obtained with discrete_grid_pos_to_id(x, y, width, z, height) as documented']
-FLOORS = {'quick': {'sibling_world_rows_checked': 739, 'id_by_keywords': 1593, 'id_with_defaults': 1579, 'id_numpy_coordinates': 3031, 'cell_y_omitted_z_keyword': 709, 'cell_numpy_coordinates': 1804, 'cell_defaults': 787, 'cell_by_keywords': 1743, 'shapes': 72, 'cells_checked': 720, 'outside_probes': 2000, 'cells_rechecked_after_update': 700, 'wrapping_shapes': 72, 'big_shapes': 2, 'big_cells': 12566, 'cells_rechecked_after_regeneration': 500, 'shapes_with_zero_axis': 30, 'line_worlds': 2,
+FLOORS = {'quick': {'lookups_from_inside_a_generator': 960, 'generators_failing_part_way': 98, 'sibling_world_rows_checked': 739, 'id_by_keywords': 1593, 'id_with_defaults': 1579, 'id_numpy_coordinates': 3031, 'cell_y_omitted_z_keyword': 709, 'cell_numpy_coordinates': 1804, 'cell_defaults': 787, 'cell_by_keywords': 1743, 'shapes': 72, 'cells_checked': 720, 'outside_probes': 2000, 'cells_rechecked_after_update': 700, 'wrapping_shapes': 72, 'big_shapes': 2, 'big_cells': 12566, 'cells_rechecked_after_regeneration': 500, 'shapes_with_zero_axis': 30, 'line_worlds': 2,
                     'grid_worlds': 8, 'reach:Environments.DiscreteWorld.get_cell': 2700, 'reach:Environments.discrete_grid_pos_to_id': 1400},
           'thorough': {'shapes': 500, 'cells_checked': 20000}}
 EXHAUSTIVE = {'quick': 'all grid shapes with extents 0..4 (125 DiscreteWorld, 4 LineWorld, 16 GridWorld) non-wrapping and wrapping, all in-range and just-outside coordinates',
@@ -146,6 +146,45 @@ def run_case(ctx, case):
     sibling.add_cell_component('only_sibling', lambda pos, cells: -code(pos))
     env.add_cell_component('code', lambda pos, cells: code(pos))
     env.add_cell_component('tag', lambda pos, cells: f'{pos[0]}:{pos[1]}:{pos[2]}')
+    # a cell-component generator that fails part-way (the caller catches the error and goes on with the same world) ...
+    from vlib import faults
+    calls = [0]
+    stop_after = rng_.randrange(ncells) if ncells else 0
+    fault_cls = faults.pick(rng_)
+
+    def failing(pos, cells):
+        calls[0] += 1
+        if calls[0] > stop_after:
+            raise faults.make(fault_cls, 'generator fails part-way')
+        return 1
+
+    _, gen_err = faults.attempt(env.add_cell_component, 'broken', failing)
+    ctx.count('generators_failing_part_way')
+    if 'broken' in env.cells.columns:
+        env.remove_cell_component('broken')          # (whether a failed add leaves a column is C11's business; here the world is simply used on)
+    # ... and one that looks cells up while it runs, also just outside the grid (that is refused as always)
+    leaks = []
+
+    def probing(pos, cells):
+        for k_ in range(3):
+            for bad_ in (-1, max(case['ext'][k_], 1)):
+                c_ = list(pos)
+                c_[k_] = bad_
+                try:
+                    r_ = env.get_cell(*c_)
+                    leaks.append((tuple(c_), tuple(r_['pos'])))
+                except IndexError:
+                    pass
+        return env.get_cell(*pos).name
+
+    if ncells <= 400:
+        env.add_cell_component('probe', probing)
+        ctx.count('lookups_from_inside_a_generator', ncells)
+        if leaks:
+            raise CaseViolation(f'get_cell{leaks[0][0]} called from inside a cell-component generator returned the row of {leaks[0][1]} instead of '
+                                f'raising IndexError', shape=case, n_unrejected=len(leaks))
+        check(env.cells['probe'].tolist() == list(range(ncells)), 'get_cell(pos).name seen from inside a generator is not the cell id', shape=case)
+        env.remove_cell_component('probe')
     check(sorted(env.cells.columns) == ['code', 'pos', 'tag'], f'the world\'s cell table has the columns {sorted(env.cells.columns)}: cell components of '
           f'another world of the same shape show up in it', shape=case)
     check(len(env.cells) == ncells, f'world has {len(env.cells)} cells, expected {ncells}', shape=case)
